@@ -492,7 +492,7 @@ class World:
         self._real_wait = ns.deferred.BaseDeferred.wait
         self._saved = (builtins.open, os.getcwd, sys.argv, sys.stdin, sys.stdout, sys.stderr,
                        ns.reports.emit_report, ns.deferred.BaseDeferred.wait,
-                       dict(ns.devices.DEVICES))
+                       ns.devices.DEVICES.get("speaker"))
         builtins.open = self.sim_open
         os.getcwd = lambda: self.cwd
         sys.stdin = _SimStdin(self, self.stdin_text)
@@ -507,7 +507,11 @@ class World:
     def __exit__(self, *exc):
         ns = self.ns
         (builtins.open, os.getcwd, sys.argv, sys.stdin, sys.stdout, sys.stderr,
-         ns.reports.emit_report, ns.deferred.BaseDeferred.wait, devs) = self._saved
-        ns.devices.DEVICES.clear()
-        ns.devices.DEVICES.update(devs)
+         ns.reports.emit_report, ns.deferred.BaseDeferred.wait, speaker) = self._saved
+        # only the speaker entry is ours to restore: everything else in the registry is state of the
+        # code under test and must survive from one operation to the next (C18)
+        if speaker is not None:
+            ns.devices.DEVICES["speaker"] = speaker
+        else:
+            ns.devices.DEVICES.pop("speaker", None)
         return False
